@@ -440,6 +440,26 @@ def c08_control():
     equivalence(prog, detect=False, prepare=prep)
 
 
+def c08_ecall_behind_transfer(name, head):
+    @unit("C08/control/ecall-directly-behind-%s" % name, expect_reach=("finished",))
+    def u():
+        """hazard detection off; no register dependencies closer than three slots: results AND timing as with the
+        documented pipeline -- in particular a wrong-path ecall right behind a taken branch/jump has no effect"""
+        from contracts.c02_pipeline import equivalence
+
+        def prog():
+            return head() + [ECALL(), ADDI(5, 5, 1), ADDI(9, 9, 5), ADDI(10, 10, 5)]
+
+        def prep(st):
+            st.register_file.registers[17] = UInt32(1)
+        equivalence(prog, detect=False, prepare=prep)
+        timing(prog, detect=False, prepare=prep)
+
+
+c08_ecall_behind_transfer("beq+12", lambda: [BEQ(R("b_rs1"), R("b_rs2"), 12)])
+c08_ecall_behind_transfer("jal+12", lambda: [JAL(sym_int("j_rd", 0, 4), 12, 12)])
+
+
 @unit("C08/canary/distance-2-sees-new-value", canary=True)
 def canary_c08():
     st, regs0 = havoc_state("five_stage_pipeline", False)
